@@ -272,6 +272,16 @@ def check_classlevel_case(case):
 
 # ---- enable / disable configuration ------------------------------------------------------------
 
+def _run_cfg(res, case, default, cf):
+    try:
+        vio = check_config_case(case)
+    except Exception as ex:
+        vio = [("harness:raises", "no exception", repr(ex))]
+    res.case(nontrivial=any(c["enabled"] is False or default is False for c in cf), outcome="cfg:%d" % len(vio))
+    for v in vio:
+        res.violation(v[0], case, v[1], v[2])
+
+
 def check_config_case(case):
     """case = {"kind":"config","default":bool|None,"configs":[{"name_kind":..,"enabled":bool|None}],"via":...}
     Three fresh components named <p>a, <p>ab, <p>b ; config names are built from the prefix p."""
@@ -305,6 +315,11 @@ def check_config_case(case):
             if cc["enabled"] is not None:
                 e["enabled"] = cc["enabled"]
             cfg["configs"].append(e)
+        if case.get("warm"):
+            # history: the components were evaluated / asked about BEFORE the configuration is applied (dr.ENABLED is a
+            # defaultdict that remembers every component it was ever asked about)
+            for c in g.nodes:
+                dr.is_enabled(c)
         if case.get("apply_default"):
             insights.apply_default_enabled(cfg)
         insights.apply_configs(cfg)
@@ -421,13 +436,11 @@ def run_unit(unit, tier):
                     case = {"kind": "config", "default": default, "configs": cf, "apply_default": apply_default}
                     if order != [0, 1, 2]:
                         case["order"] = order
-                    try:
-                        vio = check_config_case(case)
-                    except Exception as ex:
-                        vio = [("harness:raises", "no exception", repr(ex))]
-                    res.case(nontrivial=any(c["enabled"] is False or default is False for c in cf), outcome="cfg:%d" % len(vio))
-                    for v in vio:
-                        res.violation(v[0], case, v[1], v[2])
+                    variants = [case]
+                    if apply_default and order == [0, 1, 2]:
+                        variants.append(dict(case, warm=True))
+                    for case in variants:
+                        _run_cfg(res, case, default, cf)
         res.samples.append({"kind": "config", "default": False, "configs": [{"name_kind": "exact0", "enabled": True}], "apply_default": True})
         return res
     raise ValueError(part)
